@@ -56,7 +56,7 @@ fn plain_blank(c: &Cell) -> bool {
 /// rows of a buffer as seen through `get_char`, trailing plain blanks dropped
 fn rows_json(buf: &Buffer) -> Value {
     let mut rows = Vec::new();
-    for y in 0..buf.get_height() {
+    for y in 0..buf.get_height().max(buf.get_line_count()) {
         let mut row: Vec<Cell> = (0..buf.get_width()).map(|x| cell_of(buf.get_char((x, y)))).collect();
         while row.last().map_or(false, plain_blank) {
             row.pop();
@@ -315,7 +315,7 @@ fn alphabet_cell(i: u64) -> Cell {
 fn emit_rt(out: &mut Out, fmt: &str, id: u64, kind: &str, p: &Pic, buf: &Buffer, opts_json: Value, so: &SaveOptions, tokens: bool) {
     // the (slow) model layer of the trace module runs on small pictures and on every eighth large one
     let ncells: usize = p.rows.iter().map(Vec::len).sum();
-    let model = tokens && (ncells <= 400 || (id % 8 == 0 && ncells <= 1500));
+    let model = if tokens { ncells <= 1200 || id % 4 == 0 } else { ncells <= 1200 || id % 2 == 0 };
     let mut ev = json!({"ev":"rt","fmt":fmt,"case":id,"kind":kind,"opts":opts_json,"ice":ice_name(p.ice),"w":p.w,"h":p.h,"pal":pal_json(buf),"src":rows_json(buf),"model":model as u8});
     let saved = guard(|| buf.to_bytes(fmt, so).map_err(|e| e.to_string()));
     let bytes = match saved {
@@ -338,7 +338,7 @@ fn emit_rt(out: &mut Out, fmt: &str, id: u64, kind: &str, p: &Pic, buf: &Buffer,
     // the SAUCE record (if any) is not part of the token stream
     let end = if so.save_sauce { icy_engine::SauceData::extract(&bytes).ok().flatten().map_or(bytes.len(), |s| bytes.len() - s.sauce_header_len) } else { bytes.len() };
     if !tokens {
-        ev["bytes"] = json!(bytes);
+        ev["bytes"] = if model { json!(bytes) } else { json!([]) };
     } else if !model {
         ev["tokens"] = json!([]);
         ev["cuf_margin"] = json!(cuf_margin_row(&bytes[..end], p.w));
@@ -548,8 +548,175 @@ pub fn c04(a: &Args) {
     eprintln!("c04: {n_small} TLC-generated cases ({} configurations, {} small buffers), {n_rnd} random cases, {total} events", cfgs.len(), bufs.len());
 }
 
-pub fn c15(_a: &Args) {
-    let _ = BufferType::CP437;
-    eprintln!("c15: driver not built yet");
-    std::process::exit(2);
+// ------------------------------------------------------------------ C15
+pub const C15_FORMATS: [(&str, i32); 6] = [("avt", 80), ("pcb", 80), ("msg", 80), ("an1", 80), ("asc", 80), ("ata", 40)];
+
+/// characters a format can hold in the C15 domain: printable CP437 (0x20..=0x7E, 0x80..=0xFE) minus the format's lead-in
+/// characters; ATASCII: the 7-bit ATASCII glyphs minus ESC, the cursor codes and clear/backspace/tab (and not NUL)
+fn c15_chars(fmt: &str) -> Vec<u32> {
+    if fmt == "ata" {
+        return (1u32..=0x7C).filter(|c| !(0x1B..=0x1F).contains(c)).collect();
+    }
+    (0x20u32..=0xFE).filter(|c| *c != 0x7F).filter(|c| match fmt {
+        "pcb" => *c != b'@' as u32,
+        "an1" => *c != b'|' as u32,
+        _ => true, // ^V ^Y ^L (Avatar) and ^A (Ctrl-A) are below 0x20 anyway
+    }).collect()
+}
+
+fn c15_attr(fmt: &str, fg: u32, bg: u32) -> (u32, u32) {
+    match fmt {
+        "ata" => if bg > 0 { (0, 7) } else { (7, 0) }, // inverse video
+        "asc" => (7, 0),
+        _ => (fg, bg),
+    }
+}
+
+fn build_c15(fmt: &str, p: &Pic) -> Buffer {
+    let mut buf = build(p);
+    if fmt == "ata" {
+        buf.buffer_type = BufferType::Atascii;
+    }
+    buf
+}
+
+fn run_c15(out: &mut Out, fmt: &str, id: u64, kind: &str, p: &Pic, prep: u64) {
+    out.ev(&json!({"ev":"reset","case":id,"kind":kind,"fmt":fmt}));
+    let buf = build_c15(fmt, p);
+    let mut so = SaveOptions::new();
+    so.screen_preparation = prep_of(prep);
+    so.lossles_output = true;
+    so.save_sauce = false;
+    emit_rt(out, fmt, id, kind, p, &buf, json!({"prep":prep}), &so, false);
+}
+
+fn random_c15_pic(r: &mut StdRng, fmt: &str, w: i32, h: i32) -> Pic {
+    let chars = c15_chars(fmt);
+    let mut rows = Vec::new();
+    let style = r.gen_range(0..3);
+    for y in 0..h {
+        let mut len = match r.gen_range(0..10) { 0 => 0, 1 | 2 => w, 3 => w - 1, 4 => 1, _ => r.gen_range(0..=w) };
+        if y + 1 == h && len == 0 {
+            len = r.gen_range(1..=w); // the last row is not empty
+        }
+        let mut row: Vec<Cell> = Vec::new();
+        let mut cur = DEFAULT_CELL;
+        while (row.len() as i32) < len {
+            if row.is_empty() || r.gen_bool(match style { 0 => 0.9, 1 => 0.2, _ => 0.5 }) {
+                let (fg, bg) = c15_attr(fmt, r.gen_range(0..16), if r.gen_bool(0.5) { 0 } else { r.gen_range(0..8) });
+                let ch = if r.gen_bool(0.25) { 32 } else { chars[r.gen_range(0..chars.len())] };
+                cur = Cell { ch, fg, bg, flags: 0 };
+            }
+            let run = if style == 0 { 1 } else { r.gen_range(1..=9) };
+            for _ in 0..run {
+                if (row.len() as i32) < len {
+                    row.push(cur);
+                }
+            }
+        }
+        if y + 1 == h {
+            // "whose last row is not empty": make sure something is visible in it
+            if let Some(l) = row.last_mut() {
+                if l.ch == 32 && l.bg == 0 { l.ch = chars[r.gen_range(0..chars.len())].max(33); }
+            }
+        }
+        rows.push(row);
+    }
+    Pic { w, h, ice: IceMode::Unlimited, rows, extra_colors: vec![] }
+}
+
+pub fn c15(a: &Args) {
+    let path = a.str("out", "work/C15/trace");
+    let seed = a.u64("seed", 0);
+    let thorough = a.str("tier", "quick") == "thorough";
+    let shards = a.usize("shards", 4);
+    let mut outs: Vec<Out> = (0..shards).map(|i| Out::create(&format!("{path}-{i}.ndjson"))).collect();
+    let mut id = 0u64;
+    // (1) TLC-generated: all ordered pairs of the 16 x 8 attributes, and the row shapes
+    let mut pairs: Vec<[u32; 4]> = Vec::new();
+    let mut shapes: Vec<(Vec<u64>, u64)> = Vec::new();
+    if let Ok(text) = std::fs::read_to_string(a.str("gen", "gen/textout.ndjson")) {
+        for line in text.lines() {
+            let Ok(v) = serde_json::from_str::<Value>(line) else { continue };
+            match v["kind"].as_str() {
+                Some("pair") => pairs.push([v["fg1"].as_u64().unwrap_or(0) as u32, v["bg1"].as_u64().unwrap_or(0) as u32, v["fg2"].as_u64().unwrap_or(0) as u32, v["bg2"].as_u64().unwrap_or(0) as u32]),
+                Some("shape") => shapes.push((v["lens"].as_array().map(|a| a.iter().map(|x| x.as_u64().unwrap_or(0)).collect()).unwrap_or_default(), v["prep"].as_u64().unwrap_or(0))),
+                _ => {}
+            }
+        }
+    }
+    let mut r = rng(seed, 15);
+    pairs.shuffle(&mut r);
+    let mut n_gen = 0;
+    for (fmt, w) in C15_FORMATS {
+        let chars = c15_chars(fmt);
+        // attribute transitions: 2 cells per pair, laid out row after row, 40 rows per buffer
+        if fmt != "asc" && fmt != "ata" && !pairs.is_empty() {
+            let cells: Vec<Cell> = pairs.iter().flat_map(|p| {
+                let c1 = chars[(p[0] * 7 + p[1]) as usize % chars.len()].max(33);
+                let c2 = chars[(p[2] * 5 + p[3] + 11) as usize % chars.len()].max(33);
+                [Cell { ch: c1, fg: p[0], bg: p[1], flags: 0 }, Cell { ch: c2, fg: p[2], bg: p[3], flags: 0 }]
+            }).collect();
+            let per_buf = (w * 40) as usize;
+            for (k, chunk) in cells.chunks(per_buf).enumerate() {
+                let rows: Vec<Vec<Cell>> = chunk.chunks(w as usize).map(<[Cell]>::to_vec).collect();
+                let p = Pic { w, h: rows.len() as i32, ice: IceMode::Unlimited, rows, extra_colors: vec![] };
+                id += 1;
+                n_gen += 1;
+                run_c15(&mut outs[(id as usize) % shards], fmt, id, "tlc-pairs", &p, (k % 3) as u64);
+            }
+        }
+        // row shapes: lengths from {0, 1, 2, w-1, w} encoded as classes 0..4
+        for (lens, prep) in &shapes {
+            let rows: Vec<Vec<Cell>> = lens.iter().enumerate().map(|(y, &cl)| {
+                let len = match cl { 0 => 0, 1 => 1, 2 => 2, 3 => w - 1, _ => w };
+                (0..len).map(|x| {
+                    let (fg, bg) = c15_attr(fmt, ((x + y as i32 * 3) % 16) as u32, ((x / 3 + y as i32) % 8) as u32);
+                    Cell { ch: chars[(x as usize * 13 + y * 7) % chars.len()].max(33), fg, bg, flags: 0 }
+                }).collect()
+            }).collect();
+            let p = Pic { w, h: rows.len() as i32, ice: IceMode::Unlimited, rows, extra_colors: vec![] };
+            id += 1;
+            n_gen += 1;
+            run_c15(&mut outs[(id as usize) % shards], fmt, id, "tlc-shape", &p, *prep);
+        }
+    }
+    // (2) every row length 0..=w in one picture each (three pictures of <= 40 rows), then seeded random pictures
+    let n_rnd = if thorough { 1500 } else { 150 };
+    let mut n_random = 0;
+    for (fmt, w) in C15_FORMATS {
+        let chars = c15_chars(fmt);
+        for part in 0..3 {
+            let lens: Vec<i32> = (0..=w).filter(|l| l % 3 == part).collect();
+            let mut rows: Vec<Vec<Cell>> = lens.iter().map(|&len| (0..len).map(|x| {
+                let (fg, bg) = c15_attr(fmt, ((x * 7 + len) % 16) as u32, ((x + len) % 8) as u32);
+                Cell { ch: chars[((x * 31 + len * 17) as usize) % chars.len()].max(33), fg, bg, flags: 0 }
+            }).collect()).collect();
+            if rows.last().map_or(true, Vec::is_empty) {
+                rows.push(vec![Cell { ch: 65, ..DEFAULT_CELL }]);
+            }
+            rows.truncate(40);
+            if rows.last().map_or(true, Vec::is_empty) {
+                rows.pop();
+            }
+            let p = Pic { w, h: rows.len() as i32, ice: IceMode::Unlimited, rows, extra_colors: vec![] };
+            id += 1;
+            n_random += 1;
+            run_c15(&mut outs[(id as usize) % shards], fmt, id, "lengths", &p, part as u64);
+        }
+        for i in 0..n_rnd {
+            let mut r = rng(seed, 150_000 + id);
+            let h = r.gen_range(1..=40);
+            let p = random_c15_pic(&mut r, fmt, w, h);
+            id += 1;
+            n_random += 1;
+            run_c15(&mut outs[(id as usize) % shards], fmt, 1_000_000 + id, "rnd", &p, i % 3);
+        }
+    }
+    let mut total = 0;
+    for o in &mut outs {
+        o.flush();
+        total += o.n;
+    }
+    eprintln!("c15: {n_gen} TLC-generated cases ({} attribute pairs, {} row shapes), {n_random} length/random cases, {total} events", pairs.len(), shapes.len());
 }
